@@ -376,7 +376,7 @@ def rule_m4(chk: Check) -> None:
     for fi, n in sites:
         uniq[(n.lineno, n.col_offset, fi.module.name)] = (fi, n)
     sites = list(uniq.values())
-    chk.floor("M4", "protocol construction sites", len(sites), 2)
+    chk.require("M4", "server.server", "protocol construction sites", len(sites), 1, "the server protocol is never constructed")
     sigs = {(tuple(norm(a) for a in n.args), tuple(sorted((k.arg or "", norm(k.value)) for k in n.keywords))) for _, n in sites}
     ok = len(sigs) == 1
     if not ok:
